@@ -1,7 +1,7 @@
 """X02 (growth id, not a listed property): inductive proofs for the small integer/set-shaped cores of the specs.
 
 Runs every core of checks/inductive.py (Apalache obligations with symbolic constants, the seeded model bugs, the TLC
-equivalence runs against the bounded specs of C12 / C06 / C04 / C01).  Everything here is model level: nothing can
+equivalence runs against the bounded specs of C12 / C06 / C04 / C01 / C03).  Everything here is model level: nothing can
 be a violation (exit 1); an obligation that is not discharged, a seeded model bug that is not caught or an
 equivalence run that fails makes the run inconclusive (exit 2).
 """
@@ -13,14 +13,14 @@ _spec = importlib.util.spec_from_file_location("verif_inductive", _p)
 inductive = importlib.util.module_from_spec(_spec)
 _spec.loader.exec_module(inductive)
 
-CORES = ["A", "B", "C", "D"]
+CORES = ["A", "B", "C", "D", "E"]
 
 
 def run(ctx):
     thorough = ctx.tier == "thorough"
     ctx.level = "inductive_invariant"
     ctx.exhaustive = True
-    res = inductive.run_inductive(ctx, CORES, budget_s=2400 if thorough else 540, bugs=True, equiv=True)
+    res = inductive.run_inductive(ctx, CORES, budget_s=2400 if thorough else 580, bugs=True, equiv=True)
     ctx.extra["inductive"] = res
     ctx.extra["trusted_base"] = ["Apalache 0.58.0 / Z3", "TLC 1.8.0 (equivalence runs)", "specs/Inductive/*.tla",
                                  "the observed-element projection argued in specs/Inductive/README.md and checked by the equivalence runs"]
